@@ -140,9 +140,34 @@ def splitBar (ws : List String) : List (List String) :=
   r.1 ++ [r.2]
 
 def step (d : DState) (opLine : String) (impl : String) : DState × StepOut :=
+  if impl = "skipped-after-panic" then (d, { model := impl })
+  else if impl = "panic" || ((words impl).headD "").splitOn "," |>.any (· = "panic") then
+    -- the implementation panicked while handling this op: never acceptable on this path
+    ({ d with desync := true }, { model := "no-panic", fails := [s!"sig=C06.heartbeat-path-panicked op={(words opLine).headD ""}"] })
+  else
   match words opLine with
   | ["reset"] => ({}, { model := "ok" })
   | ["reset", "leveldb"] => ({ rs := some {} }, { model := "ok" })
+  | "hbf" :: spec =>
+    -- the heartbeat's SaveRegion fails: the pinned code only logs that; cache and storage deletes happen as usual
+    match parseHeartbeatX spec with
+    | none => (d, { model := "bad-op" })
+    | some hb =>
+      let r := regionFromHeartbeat hb
+      let w := heartbeatWrites d.model r
+      let (c0, v) := heartbeat d.model r
+      let c' : Cluster := if w.1 then { c0 with storage := (store { c0 with storage := d.model.storage } r false w.2).storage } else c0
+      let (vi, S', M') := parseObs impl
+      let (fails, mon') :=
+        match verdictOf vi with
+        | some v' =>
+          let fs := if decide (C06.StepOk d.mon.H d.mon.S d.mon.M (norm r) v' S' M') then [] else
+            let e := explainStep d.mon (norm r) v' S' M'
+            if e.isEmpty then [s!"sig=C06.step-not-ok region={r.id}"] else e
+          (fs, { d.mon with H := C06.record d.mon.H S', S := S', M := M' })
+        | none => ([s!"sig=C06.unexpected-answer answer={vi}"], d.mon)
+      let d' := { d with model := c', mon := mon' }
+      (d', { model := if d.desync then impl else s!"{vstr v} {renderStateD d'}", fails := fails })
   | "hb" :: spec =>
     match parseHeartbeatX spec with
     | none => (d, { model := "bad-op" })
